@@ -8,6 +8,8 @@ def run(ctx):
     thorough = ctx.tier == "thorough"
     # every write edge of the Store model: shape, default set, time, salt size, salt != previous, digest (C14-tagged findings)
     storefam.run_family(ctx, only_ops=("add", "update", "init"), seeds=[ctx.seed])
+    # the same rules along model histories (SimStore, 3 parameter sets, default switches) against one real directory each
+    storefam.histories(ctx, 200 if ctx.tier == "quick" else 2000)
     exe = ctx.build("./cmd/writereplay")
     outp = os.path.join(ctx.scratch, "written.ndjson")
     r = subprocess.run([exe, "-out", outp, "-seed", str(ctx.seed), "-sets", "60" if thorough else "20", "-scratch",
